@@ -522,7 +522,29 @@ fn c12(s: &mut Search, rng: &mut Rng) {
                 let r = rng.range(0.5, 1.5);
                 format!("radial {} {}", k, (0..k).map(|_| fhex(r)).collect::<Vec<_>>().join(" "))
             }
-            6 | 7 => "circle".to_string(),
+            6 => {
+                // irregular CONVEX radial polygon (unequal radii; first point not the largest in half
+                // of the cases): rejection-sampled on the turn of consecutive edges
+                let mut out = None;
+                for _ in 0..20 {
+                    let k = 3 + rng.usize(6);
+                    let alt = rng.chance(1, 2);
+                    let small = rng.range(0.72, 0.98);
+                    let rs: Vec<f64> = (0..k).map(|i| if alt { if i % 2 == 0 { small } else { 1.0 } } else { rng.range(0.8, 1.0) }).collect();
+                    let dt = 2.0 * std::f64::consts::PI / k as f64;
+                    let v: Vec<(f64, f64)> = (0..k).map(|i| (rs[i] * (i as f64 * dt).sin(), rs[i] * (i as f64 * dt).cos())).collect();
+                    let convex = (0..k).all(|i| {
+                        let (p, q, r) = (v[i], v[(i + 1) % k], v[(i + 2) % k]);
+                        (q.0 - p.0) * (r.1 - q.1) - (q.1 - p.1) * (r.0 - q.0) < -1e-6
+                    });
+                    if convex {
+                        out = Some(format!("radial {} {}", k, rs.iter().map(|r| fhex(*r)).collect::<Vec<_>>().join(" ")));
+                        break;
+                    }
+                }
+                out.unwrap_or_else(|| "poly 5".to_string())
+            }
+            7 => "circle".to_string(),
             _ => crate::gen::gen_trimer(rng, "trimer"),
         };
         let (a, b) = gen_pair_placements(rng);
